@@ -107,12 +107,13 @@ Inductive action :=
 | Disconnect                       (* the session is closed / the read loop ends *)
 | Drop.                            (* a CALL ends with no reply on a live session *)
 
-(* ---- plugin container loops (plugin.go): status of a pre-handler hook ---- *)
-Inductive hook_res := HookOk (s : ostatus) | HookVeto (s : status) | HookPanic (c : cause).
+(* ---- plugin container loops (plugin.go): a stage returns the first non-OK status
+   of its plugins, else nil - a non-nil OK status of a plugin is NOT passed on ---- *)
+Inductive hook_res := HookOk | HookVeto (s : status) | HookPanic (c : cause).
 Definition hook (v : verdict) : hook_res :=
   match v with
-  | VNil => HookOk None
-  | VStat s => if st_code s =? 0 then HookOk (Some s) else HookVeto s
+  | VNil => HookOk
+  | VStat s => if st_code s =? 0 then HookOk else HookVeto s
   | VPanic c => HookPanic c
   end.
 
@@ -130,7 +131,7 @@ Definition bind_with (f : frame) (s_header s_body : stage) : bind_res :=
   match hook (f_verdict f s_header) with
   | HookPanic _ => BindPanic
   | HookVeto s => Bound (Some s) None false
-  | HookOk _ =>
+  | HookOk =>
       if f_sm_empty f then Bound (Some st_invalid_method) None false
       else match lookup (f_route f) with
            | None => Bound (Some st_not_found) None false
@@ -138,7 +139,7 @@ Definition bind_with (f : frame) (s_header s_body : stage) : bind_res :=
                match hook (f_verdict f s_body) with
                | HookPanic _ => BindPanic
                | HookVeto s => Bound (Some s) (Some h) false
-               | HookOk s => Bound s (Some h) true
+               | HookOk => Bound None (Some h) true
                end
            end
   end.
@@ -162,8 +163,15 @@ Definition eff_write_prefix (f : frame) (w : wres) : wres :=
 (* repaired writeReply replaces an expired context before writing *)
 Definition eff_write (f : frame) (w : wres) : wres := w.
 
+(* what the read loop does when no goroutine is available; text of the status *)
+Definition st_no_goroutine : status :=
+  st_internal (CText (str "no goroutine available to handle the message")).
+
 Section Dispatch.
   Variable effw : frame -> wres -> wres.
+  (* true: tree with the pool fix (a CALL is refused with a status on the read
+     goroutine); false: before it (the context is just put back) *)
+  Variable pool_fix : bool.
 
   (* the single reply write of the panic-recovery path of handleCall *)
   Definition first_write (f : frame) (st : ostatus) : wres :=
@@ -208,14 +216,14 @@ Section Dispatch.
       match hook (f_verdict f SPostReadCallBody) with
       | HookPanic c => write_once f (Some (st_internal c))
       | HookVeto s => reply_path f (Some s)
-      | HookOk s =>
+      | HookOk =>
           match h with
-          | None => reply_path f s          (* unreachable: OK stat implies a handler *)
+          | None => reply_path f None       (* unreachable: OK stat implies a handler *)
           | Some k =>
               match f_handler f with
               | HPanic c => Invoke k :: write_once f (Some (st_internal c))
               | HReturn hs =>
-                  Invoke k :: reply_path f (if st_ok hs then s else hs)
+                  Invoke k :: reply_path f (if st_ok hs then None else hs)
               end
           end
       end
@@ -226,9 +234,9 @@ Section Dispatch.
     match h with
     | Some k =>
         if st_ok stat then
-          match f_verdict f SPostReadPushBody with
-          | VNil => [Invoke k]     (* "== nil": a non-nil OK status also skips the handler *)
-          | _ => []
+          match hook (f_verdict f SPostReadPushBody) with
+          | HookOk => [Invoke k]
+          | _ => []          (* veto; a panic is recovered by handlePush *)
           end
         else []
     | None => []
@@ -257,7 +265,12 @@ Section Dispatch.
     else
       let stat' := match err with Some _ => Some (st_bad_message CLib) | None => stat end in
       if f_spawn_failed f then
-        match classify_type (f_type f) with TCall => [Drop] | _ => [] end
+        if pool_fix then
+          match classify_type (f_type f) with
+          | TPush => []                      (* only a PUSH is skipped *)
+          | _ => handle f (if st_ok stat' then Some st_no_goroutine else stat') h has_pc
+          end
+        else match classify_type (f_type f) with TCall => [Drop] | _ => [] end
       else handle f stat' h has_pc.
 
   (* one iteration of session.go startReadAndHandle *)
@@ -279,8 +292,9 @@ Section Dispatch.
     end.
 End Dispatch.
 
-Definition dispatch_now := dispatch eff_write.
-Definition dispatch_prefix := dispatch eff_write_prefix.
+Definition dispatch_now := dispatch eff_write true.
+(* the pinned tree: neither the context fix nor the pool fix *)
+Definition dispatch_prefix := dispatch eff_write_prefix false.
 
 (* ---- observation helpers ---- *)
 Definition is_invoke (a : action) : bool := match a with Invoke _ => true | _ => false end.
